@@ -824,3 +824,179 @@ func strictlyImprovedAt(b *ssa.BasicBlock, l *loopInfo) string {
 	}
 	return "is not confined to the true edge of a strict comparison (<, >) of the count after the change with the count before it"
 }
+
+// ---------- BAL-2 ----------
+
+func init() {
+	register(&Rule{
+		ID: "BAL-2",
+		Doc: "opposite ends, opposite shifts (contradiction rule): a subtree shifter is a recursive function of phase 2 that takes a node and an integer and adds the (negated) integer to Node.Layer of the node and recursively of its tree neighbours. " +
+			"Where a caller chooses between shifting the subtree hanging on one end of an edge (e.From) and the one hanging on its other end (e.To) by the same amount v, the two alternatives must carry opposite signs: moving one side of a tree edge by v and moving the other side by -v are the same relative displacement, " +
+			"moving either side by +v are opposite displacements - one of them stretches the edge it was meant to tighten, or pushes a node above its predecessor",
+		Floor: 1,
+		Ctl:   []string{"internal__phase2__bal2.go.txt"},
+		Run:   runBal2,
+	})
+}
+
+func runBal2(m *Model, r *RuleResult) {
+	m.fxInit()
+	// subtree shifters
+	shifter := map[*ssa.Function]bool{}
+	for _, f := range m.Src {
+		if shortPkg(pkgPathOf(f)) != "internal/phase2" || f.Parent() != nil || len(f.Blocks) == 0 {
+			continue
+		}
+		np, ip := -1, -1
+		for i, p := range f.Params {
+			if namedKey(derefType(p.Type())) == igNode {
+				np = i
+			} else if b, ok := p.Type().Underlying().(*types.Basic); ok && b.Info()&types.IsInteger != 0 {
+				ip = i
+			}
+		}
+		if np < 0 || ip < 0 || f.Signature.Results().Len() != 0 {
+			continue
+		}
+		if len(staticCalls(f, func(c *ssa.Function) bool { return c == f })) == 0 {
+			continue
+		}
+		// stores Node.Layer of its node parameter as old -/+ the integer parameter
+		ok := false
+		eachInstr(f, func(in ssa.Instruction) {
+			st, isSt := in.(*ssa.Store)
+			if !isSt {
+				return
+			}
+			fa, isFA := st.Addr.(*ssa.FieldAddr)
+			if !isFA {
+				return
+			}
+			base, steps := fieldChain(fa)
+			if locOfSteps(steps) != igNode+".Layer" || base != ssa.Value(f.Params[np]) {
+				return
+			}
+			if bo, isBin := st.Val.(*ssa.BinOp); isBin && (bo.Op == token.SUB || bo.Op == token.ADD) && bo.Y == ssa.Value(f.Params[ip]) {
+				ok = true
+			}
+		})
+		if ok {
+			shifter[f] = true
+		}
+	}
+	type alt struct {
+		end  string // From / To
+		edge ssa.Value
+		amt  ssa.Value
+		neg  bool
+		pos  token.Pos
+	}
+	endOf := func(v ssa.Value) (string, ssa.Value) {
+		u, ok := v.(*ssa.UnOp)
+		if !ok || u.Op != token.MUL {
+			return "", nil
+		}
+		fa, ok := u.X.(*ssa.FieldAddr)
+		if !ok {
+			return "", nil
+		}
+		base, steps := fieldChain(fa)
+		switch locOfSteps(steps) {
+		case igEdge + ".From":
+			return "From", base
+		case igEdge + ".To":
+			return "To", base
+		}
+		return "", nil
+	}
+	amount := func(v ssa.Value) (ssa.Value, bool) {
+		if u, ok := v.(*ssa.UnOp); ok && u.Op == token.SUB {
+			return u.X, true
+		}
+		if bo, ok := v.(*ssa.BinOp); ok && bo.Op == token.SUB {
+			if c, ok := bo.X.(*ssa.Const); ok && c.Value != nil && c.Int64() == 0 {
+				return bo.Y, true
+			}
+		}
+		return v, false
+	}
+	for _, f := range m.Src {
+		if shortPkg(pkgPathOf(f)) != "internal/phase2" || len(f.Blocks) == 0 || shifter[f] {
+			continue
+		}
+		var alts []alt
+		eachInstr(f, func(in ssa.Instruction) {
+			ci, ok := in.(ssa.CallInstruction)
+			if !ok {
+				return
+			}
+			c := ci.Common().StaticCallee()
+			if c == nil || !shifter[c] {
+				return
+			}
+			var nodeArg, intArg ssa.Value
+			args := ci.Common().Args
+			for i, p := range c.Params {
+				if i >= len(args) {
+					break
+				}
+				if namedKey(derefType(p.Type())) == igNode {
+					nodeArg = args[i]
+				} else if b, ok := p.Type().Underlying().(*types.Basic); ok && b.Info()&types.IsInteger != 0 {
+					intArg = args[i]
+				}
+			}
+			if nodeArg == nil || intArg == nil {
+				return
+			}
+			add := func(nv, iv ssa.Value) {
+				end, edge := endOf(nv)
+				if end == "" {
+					return
+				}
+				a, neg := amount(iv)
+				alts = append(alts, alt{end, edge, a, neg, in.Pos()})
+			}
+			if phi, ok := nodeArg.(*ssa.Phi); ok {
+				iphi, _ := intArg.(*ssa.Phi)
+				for i, e := range phi.Edges {
+					iv := intArg
+					if iphi != nil && iphi.Block() == phi.Block() {
+						iv = iphi.Edges[i]
+					}
+					add(e, iv)
+				}
+				return
+			}
+			add(nodeArg, intArg)
+		})
+		if len(alts) < 2 {
+			continue
+		}
+		ctl := m.FuncIsPosctl(f)
+		key := "opposite-ends-opposite-shifts:" + funcKey(f)
+		var bad []string
+		pairs := 0
+		for i := range alts {
+			for j := i + 1; j < len(alts); j++ {
+				a, b := alts[i], alts[j]
+				if a.end == b.end || !(a.edge == b.edge || sameSSAExpr(a.edge, b.edge, 0)) || !(a.amt == b.amt || sameSSAExpr(a.amt, b.amt, 0)) {
+					continue
+				}
+				pairs++
+				if a.neg == b.neg {
+					bad = append(bad, fmt.Sprintf("the subtree at the %s end (%s) and the subtree at the %s end (%s) of the same edge are shifted by the same signed amount", a.end, m.Pos(a.pos), b.end, m.Pos(b.pos)))
+				}
+			}
+		}
+		if pairs == 0 {
+			continue
+		}
+		if len(bad) == 0 {
+			r.add(Obligation{Key: key, Pos: m.Pos(f.Pos()), Desc: fmt.Sprintf("%d pair(s) of alternatives shift opposite ends of an edge by opposite amounts", pairs), Verdict: "holds", Control: ctl})
+		} else {
+			r.add(Obligation{Key: key, Pos: m.Pos(f.Pos()), Desc: "alternatives that shift opposite ends of an edge must use opposite signs", Verdict: "violation",
+				Detail: strings.Join(uniq(bad), "; ") + ": the two alternatives are opposite relative displacements of the two halves of the tree, so one of them moves nodes the wrong way (edges stretched or pointing upward, negative layers)", Control: ctl})
+		}
+	}
+}
